@@ -6,6 +6,8 @@ CONSTANTS
   Values <- McValues
   Messages <- McMessages
   Servers <- McServers
+  Forms <- McForms
+  MaxServes = 1
   Deviation = "callback-keeps-json-ctype"
 INVARIANTS EnvelopeWellFormed
 CHECK_DEADLOCK FALSE
